@@ -1250,7 +1250,7 @@ Theorem C02_join_rel_fixpoint : forall dbg hp hpo hd, HostRT hp hpo hd -> host_a
 Proof. exact join_rel_fixpoint. Qed.
 Print Assumptions C02_join_rel_fixpoint.
 
-Theorem C02_wqf_noauth_marker : forall ovr sch T rest, starts_with [47] T = true ->
+Theorem C02_wqf_noauth_marker : forall ovr sch T rest, UrlRecord.starts_with [47] T = true ->
   let a := nlen (sch ++ [58]) in
   with_query_and_fragment ovr CUrlParser STNotSpecial (nlen sch) a a a HI_None None (nlen ((sch ++ [58]) ++ [47; 46]))
     (((sch ++ [58]) ++ [47; 46]) ++ T) rest
